@@ -780,6 +780,38 @@ func c12Generate(r *rand.Rand, class string) c12In {
 			ops = append(ops, d2(unknown), d2(dB))
 		}
 		return c12In{ops}
+	case "timeout-after-handoff":
+		// n bids with pairwise distinct digests, each handed to an engine stream, then its context ends (the
+		// handler of pkg/preconfirmation gives up after 5 s): the service keeps one entry per such call; only a
+		// decision for the digest removes it (C12_timeout_after_handoff_leaves_entry: exactly n entries)
+		n := 1 + r.Intn(6)
+		digs := make([][]byte, n)
+		for k := range digs {
+			d := make([]byte, 32)
+			r.Read(d)
+			d[0] = byte(k + 1)
+			digs[k] = d
+		}
+		ops := []c12Op{}
+		late := r.Intn(2) == 0
+		for k := 0; k < n; k++ {
+			ops = append(ops, sub(k+1, c12GoodBid(r, k+1, digs[k])), take)
+			if !late {
+				ops = append(ops, c12Op{Kind: "abandon", H: k + 1})
+			}
+		}
+		if late {
+			for _, k := range r.Perm(n) {
+				ops = append(ops, c12Op{Kind: "abandon", H: k + 1})
+			}
+		}
+		switch r.Intn(3) {
+		case 0: // the engine answers one of them after all: that entry goes, the others stay
+			ops = append(ops, dec(0, digs[r.Intn(n)], []int32{1, 2}[r.Intn(2)]))
+		case 1: // a decision for an unknown digest and a malformed one change nothing
+			ops = append(ops, dec(0, unknown, 1), dec(1, digs[0], 3))
+		}
+		return c12In{ops}
 	case "cancel":
 		ops := []c12Op{sub(1, c12GoodBid(r, 1, dA)), sub(2, c12GoodBid(r, 2, dB))}
 		switch r.Intn(4) {
@@ -871,7 +903,7 @@ func TestVerifC12(t *testing.T) {
 	for i := 0; i < 40; i++ {
 		run("invalid-bid", c12Generate(e.rng, "invalid-bid"))
 	}
-	classes := []string{"single", "decisions", "equal-digests", "resubmit", "cancel", "no-engine", "digest-variants", "gated-streams", "random", "random"}
+	classes := []string{"single", "decisions", "equal-digests", "resubmit", "cancel", "no-engine", "digest-variants", "gated-streams", "timeout-after-handoff", "random", "random"}
 	for i := 0; i < e.N; i++ {
 		for _, c := range classes {
 			run(c, c12Generate(e.rng, c))
